@@ -24,7 +24,10 @@ def insitu_matrix(ctx):
         dict(label="bar/second solve() on the same TDGLSolver object", dev="bar", current=5.0, field=0.5, solve_time=0.3, scenario="second-solve"),
         dict(label="barhole/seed_solution + thermalisation + time-dependent epsilon and field", dev="barhole", current=4.0, field=0.4, field_ramp=0.3,
              epsilon_ramp=0.3, solve_time=0.3, skip_time=0.1, scenario="seeded"),
-        dict(label="tee/ramped currents/fixed step", dev="tee", current=6.0, current_ramp=0.2, field=0.2, adaptive=False, solve_time=0.25),
+        dict(label="tee/ramped currents/fixed step/RuntimeWarnings are errors", dev="tee", current=6.0, current_ramp=0.2, field=0.2, adaptive=False, solve_time=0.25,
+             werror=True),
+        dict(label="bar/strong-current/retries/RuntimeWarnings are errors", dev="bar", current=20.0, field=1.0, dt=0.25, dt_max=2.0, window=2, solve_time=0.5,
+             werror=True),
         dict(label="bar/screening/fixed step", dev="bar", current=5.0, field=0.5, solve_time=0.08, screening=True, adaptive=False),
     ]
     if not ctx.quick:
@@ -127,6 +130,14 @@ def run(ctx):
     plans = pu.plan_vectors(points, ctx.seed, ctx.quick)
     tiny = pu.tiny_plans(ctx.seed, ctx.quick)
     near = pu.near_plans(points, ctx.seed, ctx.quick)
+    # every 4th grid / near-tangent call is made with warnings turned into errors (verdicts must not depend on the warning filters)
+    for n, p in enumerate(plans):
+        if n % 4 == 0:
+            p["werror"] = True
+            p["family"] = p["family"] + "/W-error"
+    for n, p in enumerate(near):
+        if n % 4 == 1:
+            p["werror"] = True
     ordinary = ([p for p in points if p["cls"] == "two" and p["r"] >= 0][:300] + [p for p in points if p["cls"] == "z0"][::4]
                 + [p for p in points if p["cls"] == "w0"][::8])
     ctx.cov["exhaustive"] = not ctx.quick
@@ -187,13 +198,13 @@ def run(ctx):
         for n in rejected:
             t = traces[n]
             cl = ",".join(clauses.get(n, ["?"]))
-            fam = "tiny" if t["family"].startswith("tiny") else ("near-tangent" if t["family"].startswith("near-tangent") else t["family"])
+            fam = "tiny-W-error" if t["family"].startswith("tiny-W-error") else "tiny" if t["family"].startswith("tiny") else ("near-tangent" if t["family"].startswith("near-tangent") else t["family"])
             groups.setdefault((cl, fam), []).append(n)
         for (cl, fam), ns in sorted(groups.items()):
             ex = [traces[n] for n in ns[:12]]
-            if fam == "tiny" and cl == "RefusedIffSomeSiteUnsolvable":
+            if fam in ("tiny", "tiny-W-error") and cl == "RefusedIffSomeSiteUnsolvable":
                 mags = sorted({t["family"].split("=")[1] for t in (traces[n] for n in ns)}, key=float, reverse=True)
-                what = (f"C02 {cl}: solve_for_psi_squared refuses (returns None) although every site is solvable "
+                what = (f"C02 {cl}{' [warnings are errors in the process]' if fam == 'tiny-W-error' else ''}: solve_for_psi_squared refuses (returns None) although every site is solvable "
                         f"(lemma SmallProductSolvable: |z||w| < 1/4): sites with |psi| in {{{', '.join(mags)}}} mixed with ordinary sites; "
                         f"{len(ns)} calls, e.g. {describe(traces[ns[0]])[:300]}")
             else:
